@@ -729,8 +729,11 @@ func (g *gen) stress() string {
 	h := g.h
 	size := 40 + h.Rng.IntN(260)
 	if h.Tier == "thorough" {
-		size = 300 + h.Rng.IntN(4000)
+		size = 300 + h.Rng.IntN(2700)
 	}
+	// rendering n diagnostics against one long line costs n × len(line) string operations in errpos (and
+	// in the model): keep the quadratic cases small so that no op comes near the watchdog limit
+	small := min(size, 400)
 	switch h.Rng.IntN(7) {
 	case 0: // deeply nested array, closed or not
 		s := "a = " + strings.Repeat("[", size) + "1"
@@ -754,7 +757,7 @@ func (g *gen) stress() string {
 	case 4: // many diagnostics in collect-all mode
 		return strings.Repeat("= 1\n", size)
 	case 5: // many lexer errors
-		return strings.Repeat("# ", size) + "\n" + strings.Repeat("\"\n", size/4)
+		return strings.Repeat("# ", small) + "\n" + strings.Repeat("\"\n", small/4)
 	default: // many lines
 		var b strings.Builder
 		for k := 0; k < size; k++ {
